@@ -22,17 +22,20 @@ from ..lib import common, pipeline, tlc
 from ..lib.evidence import Report, machinery_failure
 
 PID = "C17"
+DCFDEV = ("a default config file that carries sub-command content (an explicit 'subcommand' key or sections) is parsed on its own with the strict sub-command "
+          "machinery: partial settings make every parse fail ('Problem in default config file ... expected subcommand'), an inner key can escape as "
+          "AttributeError, and the environment does not override the file's choice")
 DEV = ("a --cfg config that names one sub-command explicitly but also carries settings for another loses those settings at load time; when the "
        "command line then selects that other sub-command it gets defaults (or the parse fails for a missing inner sub-command)")
 
 
-def build_tree(nodes, default_env):
+def build_tree(nodes, default_env, dcf=None):
     from jsonargparse import ActionConfigFile, ArgumentParser
 
     by_path = {tuple(n["path"]): n for n in nodes}
 
     def mk(path, root=False):
-        kw = {"env_prefix": "APP", "default_env": default_env} if root else {}
+        kw = {"env_prefix": "APP", "default_env": default_env, "default_config_files": [dcf] if dcf else None} if root else {}
         p = ArgumentParser(exit_on_error=False, **kw)
         if root:
             p.add_argument("--cfg", action=ActionConfigFile)
@@ -121,11 +124,16 @@ def run_case(case):
         how = (variant // 2) % 3 if inp["env"] else 0
         if inp["env"] and how == 2:
             os.environ["JSONARGPARSE_DEFAULT_ENV"] = "true"  # read by the default_env setter, i.e. when parsers are built
-        parser = build_tree(nodes, default_env=inp["env"] and how == 0)
+        dcf_file = None
+        if inp.get("dcf") and obj:
+            dcf_file = os.path.join(tmp, "defaults.json")
+            with open(dcf_file, "w") as fh:
+                json.dump(obj, fh)
+        parser = build_tree(nodes, default_env=inp["env"] and how == 0, dcf=dcf_file)
         if inp["env"] and how == 1:
             parser.default_env = True
         argv = []
-        if not inp["strict"] and obj:
+        if not inp["strict"] and obj and not inp.get("dcf"):
             if variant % 2 == 0:
                 argv.append("--cfg=" + json.dumps(obj))
             else:
@@ -224,7 +232,8 @@ def random_input(rnd, nodes):
     eopt = [list(p) for p in by_path if env and rnd.random() < 0.4]
     if strict:
         aopt = []
-    return {"argv": argv, "aopt": aopt, "csel": csel, "csec": [list(p) for p in sorted(csec)], "env": env, "esel": esel, "eopt": eopt, "strict": strict}
+    return {"argv": argv, "aopt": aopt, "csel": csel, "csec": [list(p) for p in sorted(csec)], "env": env, "esel": esel, "eopt": eopt, "strict": strict,
+            "dcf": (not strict) and rnd.random() < 0.3}
 
 
 def main(argv):
@@ -257,7 +266,7 @@ def main(argv):
         stride = 1 if (tier == "thorough" or t == "T1") else 3
         for n, c in enumerate(got):
             if n % stride == 0:
-                cases.append({"nodes": treedefs[t], "input": c["input"], "ref": c["ref"], "alg": c["alg"], "dev": c["dev"], "variant": n, "tree": t})
+                cases.append({"nodes": treedefs[t], "input": c["input"], "ref": c["ref"], "alg": c["alg"], "dev": c["dev"], "dcfdev": c["dcfdev"], "variant": n, "tree": t})
     results = pipeline.run_many(run_case, cases, chunksize=32)
     for c, r in zip(cases, results):
         rep.traces += 1
@@ -271,10 +280,12 @@ def main(argv):
             continue
         case = {"tree": c["tree"], "nodes": c["nodes"], "input": c["input"], "call": r["call"], "env": r["env"], "expected": ref, "observed": seen, "message": r.get("msg")}
         alg = {"err": c["alg"]["err"], "levels": [{"x": l["x"], "chosen": l["chosen"], "sections": sorted(l["sections"])} for l in c["alg"]["levels"]]}
-        if r.get("escaped"):
-            rep.violation(f"escaped:{r['escaped']}", f"{r['escaped']} escaped from a parse with sub-commands", case)
-        elif seen == ref:
+        if seen == ref and not r.get("escaped"):
             continue
+        if c["dcfdev"]:
+            rep.violation("dcf:subcommand-settings", DCFDEV, case)
+        elif r.get("escaped"):
+            rep.violation(f"escaped:{r['escaped']}", f"{r['escaped']} escaped from a parse with sub-commands", case)
         elif c["dev"] and seen == alg:
             rep.violation("cfgkey-names-other:settings-dropped", DEV, case)
         else:
@@ -300,12 +311,14 @@ def main(argv):
             if isinstance(p, list) and p and p[0] == "R":
                 rej.setdefault(p[2], []).append(p[3])
         for c, r in zip(rcases, rres):
-            if r.get("escaped"):
+            if r.get("escaped") and not _dcfdev(c["input"]):
                 rep.violation(f"escaped:{r['escaped']}", f"{r['escaped']} escaped from a parse with sub-commands", {"nodes": c["nodes"], "input": c["input"], "call": r["call"], "message": r.get("msg")})
         for idx, clauses in sorted(rej.items()):
             c, r = rcases[idx - 1], rres[idx - 1]
             case = {"nodes": c["nodes"], "input": c["input"], "call": r["call"], "env": r["env"], "observed": {"err": r["err"], "levels": r["levels"]}, "message": r.get("msg"), "failed_clauses": clauses}
-            if "ref-dev-as-alg" in clauses:
+            if "ref-dcf" in clauses:
+                rep.violation("dcf:subcommand-settings", DCFDEV, case)
+            elif "ref-dev-as-alg" in clauses:
                 rep.violation("cfgkey-names-other:settings-dropped", DEV, case)
             elif "ref" in clauses:
                 rep.violation("random:" + _key(c["input"], None, {"err": r["err"], "levels": r["levels"]}), "random tree: the observed selection / key set is not the documented one", case)
@@ -325,6 +338,10 @@ def main(argv):
     rep.explanation = (f"{len(cases)} of TLC's behaviours (T1/T2 complete, T2 {'complete' if tier == 'thorough' else 'every 3rd'}, T3 {'complete' if tier == 'thorough' else 'thorough tier only'}) replayed on real parser trees; "
                        f"{len(rcases)} random (tree, input) pairs validated by TLC against Trace_Subcommands. Exhaustive w.r.t. the three fixed trees and the input grammar of MC_Subcommands only.")
     return rep.finish()
+
+
+def _dcfdev(inp):
+    return bool(inp.get("dcf")) and (any(n != "-" for _, n in inp["csel"]) or any(p for p in inp["csec"]))
 
 
 def _key(inp, ref, seen):
